@@ -145,6 +145,7 @@ class Interp:
         self.calls = []          # trace of abstracted calls (qname, ...) for ghost/schedule obligations
         self.depth = 0
         self._glob = {}
+        self.loop_cuts = {}      # loop node id -> handler(I, node, env)
 
     # ---------------- types / object construction ----------------
     def canon(self, ts):
@@ -275,19 +276,19 @@ class Interp:
         return None
 
     # ---------------- calls ----------------
-    def call(self, f, this, args):
+    def call(self, f, this, args, force_body=False):
         self.depth += 1
         if self.depth > 60:
             raise SymxError("call depth")
         try:
-            h = self.dom.contract_for(self, f, this, args)
+            h = None if force_body else self.dom.contract_for(self, f, this, args)
             if h is not None:
                 return h(self, f, this, args)
             if f.body is None:
                 raise SymxError("no body and no contract for " + str(f.qname))
             saved_scopes = self.scopes
             self.scopes = ([f.record.qname] if f.record is not None else []) + (["::".join(x for x in f.ns if x not in ("embedded_pairing", "core", "bls12_381", ""))] if any(x not in ("embedded_pairing", "core", "bls12_381", "") for x in f.ns) else [])
-            saved_env = self.tu.__dict__.get("const_env")
+            saved_env = self.tu.const_env
             self.tu.const_env = {}
             self._scan_consts(f.body)
             env = {"this": this}
@@ -356,6 +357,9 @@ class Interp:
                 self.exec(inner[1], env)
             elif len(inner) > 2:
                 self.exec(inner[2], env)
+        elif k in ("ForStmt", "WhileStmt", "DoStmt") and n.get("id") in self.loop_cuts:
+            # the loop is cut at its head: a handler checks base / inductive step for an invariant (DESIGN 3.5)
+            self.loop_cuts[n["id"]](self, n, env)
         elif k == "ForStmt":
             init, condvar, cond, inc, body = n["inner"]
             if init.get("kind"):
@@ -459,6 +463,10 @@ class Interp:
     def init_list(self, o, e, env):
         inner = e.get("inner", [])
         if isinstance(o, Leaf):
+            lit = self._bigint_literal(e) if re.match(r"^BigInt<\d+>$", o.type) else None
+            if lit is not None:
+                o.val = lit
+                return
             # initialiser of an abstract object: a designated copy from a constant ({{{.val = X}}}) or {0}
             src = self._leaf_init_source(e, env)
             if src is None:
@@ -497,6 +505,30 @@ class Interp:
             return
         if isinstance(o, Cell):
             o.v = self.rv(self.ev(inner[0], env)) if inner else 0
+
+    def _bigint_literal(self, e):
+        """value of a BigInt initialiser {.std_words = {...}} made of integer literals"""
+        fld = e.get("field", {}).get("name")
+        if fld is None:
+            return None
+        esz = {"std_words": 4, "std_dwords": 8, "dwords": 16, "words": 8, "bytes": 1}.get(fld)
+        inner = e.get("inner", [])
+        if esz is None or not inner:
+            return None
+        vals = []
+
+        def walk(n):
+            if n["kind"] == "IntegerLiteral":
+                vals.append(int(n["value"]))
+            elif n["kind"] in ("InitListExpr", "ImplicitCastExpr", "ConstantExpr"):
+                for c in n.get("inner", []):
+                    walk(c)
+            elif n["kind"] == "ImplicitValueInitExpr":
+                pass
+            else:
+                raise SymxError("BigInt initialiser element " + n["kind"])
+        walk(inner[0])
+        return sum(v << (8 * esz * k) for k, v in enumerate(vals))
 
     def _flatten_bases(self, e):
         """InitListExpr of a derived class nests its base initialiser first; we have flat fields."""
@@ -864,3 +896,73 @@ def explore(make_run, max_paths=256):
         if len(out) > max_paths:
             raise SymxError("too many paths")
     return out
+
+
+# ---------------------------------------------------------------------------
+# loop cuts
+class CutDone(Exception):
+    """raised by a loop-cut handler when the obligations of this run have been collected"""
+
+    def __init__(self, obs):
+        Exception.__init__(self, "cut")
+        self.obs = obs
+
+
+def loops_of(f):
+    """loop statement nodes of a function body in syntactic order (ordinal 1, 2, ...)"""
+    out = []
+
+    def walk(n):
+        if n.get("kind") in ("ForStmt", "WhileStmt", "DoStmt"):
+            out.append(n)
+        for c in n.get("inner", []):
+            walk(c)
+    walk(f.body)
+    return out
+
+
+def locals_of(f):
+    """name -> decl id of the parameters and local variables of a function"""
+    out = {}
+    for p in f.params:
+        out[p.get("name")] = p["id"]
+
+    def walk(n):
+        if n.get("kind") == "VarDecl":
+            out.setdefault(n["name"], n["id"])
+        for c in n.get("inner", []):
+            walk(c)
+    walk(f.body)
+    return out
+
+
+def loop_var(n):
+    """decl id of the variable declared in a for-loop's init statement"""
+    init = n["inner"][0]
+    for c in init.get("inner", []):
+        if c.get("kind") == "VarDecl":
+            return c["id"]
+    raise SymxError("loop has no induction variable declaration")
+
+
+def for_parts(n):
+    if n["kind"] == "ForStmt":
+        init, condvar, cond, inc, body = n["inner"]
+        return init, cond, inc, body
+    if n["kind"] == "WhileStmt":
+        return {}, n["inner"][-2], {}, n["inner"][-1]
+    raise SymxError("loop cut on " + n["kind"])
+
+
+def run_iteration(I, n, env):
+    """evaluate the loop condition in the current state; if it holds run body and increment once. Returns False if the guard is false."""
+    init, cond, inc, body = for_parts(n)
+    if cond.get("kind") and not I.truth(I.rv(I.ev(cond, env)), n):
+        return False
+    try:
+        I.exec(body, env)
+    except ContinueEx:
+        pass
+    if inc.get("kind"):
+        I.ev(inc, env)
+    return True
